@@ -91,6 +91,7 @@ const (
 const (
 	flagAccessCalled uint8 = 1 << iota
 	flagReaccess
+	flagDeleted
 )
 
 var (
@@ -693,6 +694,7 @@ func (s *Subscription) processCollectionEvent(event *rescache.ResourceEvent) {
 		// deleted, or else the resources it references, no longer held by the
 		// client, are not considered sent and will not be unsent.
 		s.unsubscribeDirect(reserr.ErrDeleted)
+		s.flags |= flagDeleted
 		if s.state != stateDisposed {
 			s.state = stateDeleted
 		}
@@ -795,6 +797,7 @@ func (s *Subscription) processModelEvent(event *rescache.ResourceEvent) {
 		// deleted, or else the resources it references, no longer held by the
 		// client, are not considered sent and will not be unsent.
 		s.unsubscribeDirect(reserr.ErrDeleted)
+		s.flags |= flagDeleted
 		if s.state != stateDisposed {
 			s.state = stateDeleted
 		}
@@ -964,8 +967,14 @@ func parseRID(rid string) (name string, query string) {
 
 func (s *Subscription) loadAccess(cb func(*rescache.Access), t *rescache.Throttle) {
 	if s.access != nil {
-		cb(s.access)
-		return
+		// A subscription that failed to load, or whose resource is deleted,
+		// is no longer registered in the cache, and is not told to reaccess.
+		// Its stored access may be outdated and is not used.
+		if s.err == nil && s.flags&flagDeleted == 0 {
+			cb(s.access)
+			return
+		}
+		s.access = nil
 	}
 
 	s.accessCallbacks = append(s.accessCallbacks, cb)
